@@ -79,6 +79,10 @@ class FSet(list):
     """a finalised set (the members in some order)"""
 
 
+class FDict(list):
+    """a dictionary handed out raw, as the list of its (key, value) pairs (nothing is hashed by the harness)"""
+
+
 class FIter(list):
     """what the host gets out of a lazy result when it consumes it (yaql.convertOutputData off)"""
 
@@ -1547,7 +1551,7 @@ def _raw_out(o, key=False):
     so are the keys / items views), a dictionary, or something lazy, which the host consumes (FIter: what it gets; an
     exception raised while it does is the outcome).  No limiter is put around the result."""
     if isinstance(o, dict):
-        return (FD if key else dict)((_raw_out(k, True), _raw_out(v, key)) for k, v in o.items())     # (inside a key: hashable all the way down)
+        return FDict((_raw_out(k), _raw_out(v)) for k, v in o.items())
     if isinstance(o, frozenset):
         return FSet(_raw_out(x) for x in o)
     if isinstance(o, View):
